@@ -444,6 +444,73 @@ def property_like():
     return p.v
 
 
+_CACHE = {1: "one"}
+_RELEASED = []
+
+
+def cache_lookup_locked(key):
+    _RELEASED.append("acquire")
+    try:
+        try:
+            return _CACHE[key]
+        except KeyError:
+            return "computed %s" % key
+    finally:
+        _RELEASED.append("release")
+
+
+def parse_all_handlers_return(text):
+    closed = []
+    try:
+        try:
+            return int(text)
+        except ValueError:
+            return float(text)
+        except TypeError:
+            return None
+    except ValueError:
+        return "neither"
+    finally:
+        closed.append(text)
+        _RELEASED.append(closed)
+
+
+def nested_cleanup_returns(items, key):
+    log = []
+    for it in items:
+        try:
+            with contextlib.suppress(AttributeError):
+                try:
+                    if it is None:
+                        continue
+                    return it[key]
+                except KeyError:
+                    break
+                except TypeError:
+                    raise LookupError(key)
+                else:
+                    return "unreached else"
+        finally:
+            log.append(it)
+            _RELEASED.append(log)
+    else:
+        return "exhausted"
+    return "broke out"
+
+
+def three_deep_all_return(x):
+    try:
+        try:
+            try:
+                return 10 // x
+            except ZeroDivisionError:
+                return x.missing
+        except AttributeError:
+            return "no attribute"
+    finally:
+        _RELEASED.append("three deep")
+
+
 def really_dead(x):
     if x:
         return 1
@@ -474,6 +541,10 @@ CALLS = [
     (return_in_with_and_loop, (["", "p"],)), (return_in_with_and_loop, ([""],)), (try_in_loop_continue, (3,)),
     (conditional_import, (True,)), (conditional_import, (False,)), (while_true_return, ()), (del_global_star, (1, 2)),
     (del_global_star, ()), (elif_chain, (1,)), (elif_chain, (2,)), (elif_chain, (3,)), (elif_chain, (4,)), (elif_chain, (5,)),
+    (cache_lookup_locked, (1,)), (cache_lookup_locked, (2,)), (parse_all_handlers_return, ("7",)), (parse_all_handlers_return, ("7.5",)),
+    (parse_all_handlers_return, ("x",)), (parse_all_handlers_return, (None,)), (nested_cleanup_returns, ([None, {"a": 1}], "a")),
+    (nested_cleanup_returns, ([{"b": 1}], "a")), (nested_cleanup_returns, ([3], "a")), (nested_cleanup_returns, ([None], "a")),
+    (three_deep_all_return, (2,)), (three_deep_all_return, (0,)), (three_deep_all_return, ("s",)),
     (really_dead, (1,)), (really_dead, (0,)), (comprehension_forms, (6,)), (multiline_statement, (1,)), (multiline_statement, (0, (0, 0))), (property_like, ()),
 ]
 
